@@ -85,7 +85,7 @@ func RunReplay(t *testing.T, table map[string]func()) {
 			// nothing to release: either the harness is waiting for virtual time or it is stuck
 			stuck++
 			if stuck > 3 {
-				out.Status = "diverged"
+				out.Status = "deadlock"
 				out.Note = fmt.Sprintf("stuck: next gate %q not reached; parked: %s", label, Parked())
 				break loop
 			}
@@ -93,7 +93,8 @@ func RunReplay(t *testing.T, table map[string]func()) {
 		}
 		fails, trace, known := Results()
 		out.Fails, out.Trace, out.Known = fails, trace, known
-		if out.Status == "pass" && len(fails) > 0 {
+		if (out.Status == "pass" || out.Status == "diverged") && len(fails) > 0 {
+			// an Assume(false) right after a failed Assert is the harness idiom for "cut the run here"
 			out.Status = "assert"
 		}
 		emit(out)
